@@ -839,7 +839,9 @@ func exec(script []string, opt comp.Options) (res comp.Result) {
 			if !logIdle("advance") {
 				continue
 			}
+			mu.Lock()
 			before := len(runs)
+			mu.Unlock()
 			time.Sleep(3 * D)
 			comp.WaitQuiet(log, opt.Grace, 10*opt.Grace)
 			logIdle("quiesce")
